@@ -138,6 +138,7 @@ func ParseFlags(params []string, args *Arguments) (*FlagsT, []string, error) {
 	)
 
 	for i = range params {
+		aliases := 0
 	scanFlags:
 		switch {
 		case ignoreFlags:
@@ -148,6 +149,11 @@ func ParseFlags(params []string, args *Arguments) (*FlagsT, []string, error) {
 			case args.AllowAdditional && params[i] == "--":
 				ignoreFlags = true
 			case strings.HasPrefix(args.Flags[params[i]], "-"):
+				// an alias chain without a loop visits each flag at most once
+				aliases++
+				if aliases > len(args.Flags) {
+					return nil, nil, fmt.Errorf("%s: flag alias loop: `%s`", invalidParameters, params[i])
+				}
 				params[i] = args.Flags[params[i]]
 				goto scanFlags
 			case args.Flags[params[i]] == types.Boolean:
